@@ -340,14 +340,14 @@ def check_c08(tier, seed):
 
 C09_INTS = [0, 1, -1, 23, 24, 255, 256, 65535, 65536, 2**32, -2**32, 2**63 - 1, -2**63, 2**63, 2**64 - 1, 2**64, -2**64, -2**64 - 1,
             2**127 - 1, -2**127]
-C09_LENS = [0, 1, 23, 24, 64, 65, 100]
+C09_LENS = [0, 1, 23, 24, 63, 64, 65, 100, 128, 129, 192, 193, 256, 300]
 
 
 def check_c09(tier, seed):
     rep = core.Report("C09", tier, seed)
     rep.rule = ("a case is a variant type with 140 cases in which the constructed case `ix` has `nf` fields of one type (Int, Bytes, "
                 "Bool, nested record, List<Int>, Map<Int,Bytes>), placed in an output datum or a mint redeemer; integers take "
-                "every boundary value across the i128 range, byte strings lengths 0..100; every field gets a value different from its "
+                "every boundary value across the i128 range, byte string lengths 0..300 (one to five 64-byte chunks); every field gets a value different from its "
                 "neighbours' and the constructor is also written with its fields in the opposite order. The inline datum / redeemer bytes are "
                 "parsed by the driver's own Plutus Data reader and must equal Enc(value) with standard framing (tags 121-127, "
                 "1280-1400, 102; CBOR int vs bignum). non-trivial: ix >= 7 or a field value outside 64 bits or a nested field; "
